@@ -25,6 +25,15 @@ listings.  A product's table is read for the flavor the product is declared unde
 Directed family exotic-lines: dependency lines in unusual spellings (options interleaved, -e taken for --external, -v
 for --vro, two brackets, two words before a bracket ...), compared with the model only.
 
+Directed family inherited-tag (gen_inherit_world, one world in four): a line of the top table carries -t TAG or
+--vro WORDS for a product that itself has dependencies; two or three levels below it a product has two or three
+versions distinguished by that tag; a control branch without the line.  Besides the listing oracle two cross-checks on
+the implementation's own answers: [oracle_setup] the listing of a product is what setting it up sets up (the setup
+command's Eups, Eups.setup in a process of its own, Eups.findSetupProduct for every name; evaluated when setup succeeds
+and the listing holds one version per name), [oracle_uses] uses(X, v) for every declared product against the listings
+(the implementation's, and what the tables mean).  A --vro line is refused by the model (Err Undefined): those
+worlds are judged by the oracles alone (key .../oracles-only); -t worlds are also compared with the model.
+
 Outside the model (counted under outside/..., never skipped silently): a construct the table layer refuses (--vro,
 unsetupRequired, a qualified tag name on a line), a pinned relational expression, a request whose root product
 Eups.findProducts does not determine (none, or the same version in two stacks).
@@ -71,6 +80,11 @@ def parse_line(text):
     optional = m.group(1) == "setupOptional"
     body = m.group(2)
     expr = None
+    vro = None
+    mv = re.search(r"--vro\s+(?:\"([^\"]*)\"|(\S+))", body)
+    if mv:                              # --vro WORD or --vro "WORD WORD ...": the VRO of this line and of everything below
+        vro = (mv.group(1) if mv.group(1) is not None else mv.group(2)).split()
+        body = body[:mv.start()] + " " + body[mv.end():]
     mb = re.search(r"\[([^\]]+)\]", body)
     if mb:
         expr = mb.group(1).strip()
@@ -97,8 +111,12 @@ def parse_line(text):
     name = words[0] if words else None
     rest = words[1:]
     version = " ".join(rest) if rest else None
-    return {"name": name, "version": version, "expr": expr, "tags": tags, "just": just, "keep": keep,
-            "optional": optional, "outside": outside}
+    d = {"name": name, "version": version, "expr": expr, "tags": tags, "just": just, "keep": keep,
+         "optional": optional, "outside": outside}
+    if vro is not None:
+        d["vro"] = vro                  # processArgs: the line's tags and -k are then ignored
+        d["tags"] = []
+    return d
 
 
 def table_lines(world, prod, flavor, types):
@@ -175,6 +193,8 @@ def designate(world, db, pre_tags, line):
     on the way down, then those of the command line), then the version entries (a named version or expression never
     falls through to a later tag), then current; the running flavor first, the fall-back flavor only when the whole
     reading failed"""
+    if line.get("vro") is not None or isinstance(pre_tags, dict):
+        return designate_words(world, db, vro_below(world, pre_tags, line)["vro"], line)
     tags = line_tags(world, line) + list(pre_tags)
     n, v, x = line["name"], line["version"], line["expr"]
     for f in FLAVORS:
@@ -198,6 +218,37 @@ def designate(world, db, pre_tags, line):
         got = o_tagged(db, n, f, "current")
         if got:
             return got
+    return None
+
+
+def vro_below(world, pre, line):
+    """what is in force for the line itself and for every table walked below it: the list of tags in front of the
+    VRO of the command, or - once a line on the way said --vro - {"vro": words} standing for the whole VRO"""
+    if line.get("vro") is not None:
+        return {"vro": list(line["vro"])}
+    if isinstance(pre, dict):
+        return {"vro": line_tags(world, line) + list(pre["vro"])}
+    return line_tags(world, line) + list(pre)
+
+
+def designate_words(world, db, words, line):
+    """the reading rule for a VRO given in full (a line said --vro): its words in order - a tag names the version its
+    chain file holds, version the version the line names (found or the reading fails), anything else is passed over;
+    the running flavor first, the fall-back flavor when the whole reading failed.  For lines that name no version or a
+    plain one (the forms the directed family writes below a --vro line)."""
+    known = ["current", "stable"] + world.get("extra_tags", [])
+    n, v = line["name"], line["version"]
+    for f in FLAVORS:
+        for w in words:
+            if w in known:
+                got = o_tagged(db, n, f, w)
+                if got:
+                    return got
+            elif w == "version" and v and not is_rel(v):
+                got = o_version(db, n, v, f)
+                if got:
+                    return got
+                break
     return None
 
 
@@ -238,7 +289,7 @@ def o_walk(world, cmd_tags, types, top):
             listed.add(q)
             if not l["just"] and q[2] and q not in walked and (q[0], q[1]) in T:
                 walked.add(q)
-                visit(q, line_tags(world, l) + list(pre))
+                visit(q, vro_below(world, pre, l))
 
     visit(top, list(cmd_tags))
     return listed, walked, g
@@ -441,6 +492,100 @@ def gen_exotic_world(rng):
             "features": ["exotic-lines"], "no_oracle": True}
 
 
+def gen_inherit_world(rng):
+    """directed family: a line of the top table carries its own tag (-t TAG) or VRO (--vro) for a product that itself
+    has dependencies; two or three levels below it a product has several versions distinguished by that tag (one
+    current, one tagged, sometimes a third under the other tag).  What setup does - and so what the listing must hold -
+    is the tagged version below the line, the current one on a branch without the line.  Variations: depth, which tag,
+    spelling and kind of the line, a version named on the lines below (the tag in force still comes first), products on
+    the way with two versions as well, the fall-back flavor, the tagged version in a second stack, the control branch
+    sharing the product (then the closure holds two versions of it)."""
+    fam = rng.choice(VERSION_FAMILIES)
+    tag = rng.choice(["beta", "stable"])
+    other = "stable" if tag == "beta" else "beta"
+    depth = rng.choice([2, 2, 3])
+    two_stacks = rng.random() < 0.3
+    stacks = ["s0", "s1"] if two_stacks else ["s0"]
+    feats = set(["inherit/%d-levels-below" % depth, "inherit/tag-" + tag])
+    prods = []
+
+    def add(n, v, tags, lines, flavor=RUNNING, stack="s0"):
+        prods.append({"stack": stack, "name": n, "version": v, "flavor": flavor, "tags": list(tags),
+                      "lines": list(lines) + ["envSet(%s_MARK, %s)" % (n.upper(), v)]})
+
+    def leaf(n, flavor):
+        add(n, fam[0], ["current"], [], flavor)
+        add(n, fam[1], [tag], [], flavor, stack=rng.choice(stacks))
+        if rng.random() < 0.4:
+            add(n, fam[2], [other] if rng.random() < 0.6 else [], [], flavor)
+            feats.add("inherit/third-version")
+
+    def below(n):                       # a line for n in a table below the tagged line
+        r = rng.random()
+        if r < 0.6:
+            return "%s(%s)" % (rng.choice(["setupRequired", "setupRequired", "setupOptional"]), n)
+        feats.add("inherit/version-named-below")
+        return "setupRequired(%s %s)" % (n, fam[0])
+
+    lib_flavor = "generic" if rng.random() < 0.2 else RUNNING
+    if lib_flavor == "generic":
+        feats.add("fallback-flavor")
+    if two_stacks:
+        feats.add("two-stacks")
+    leaf("lib", lib_flavor)
+    share = rng.random() < 0.3          # the control branch reaches the same product: two versions of it in the closure
+    if not share:
+        leaf("lic", RUNNING)
+    mids = ["m%d" % i for i in range(1, depth + 1)]
+    kind = rng.choice(["-t", "-t", "-t", "--vro", "--vro"])
+    # products on the way down: one version, or two distinguished by the tag (the same lines below)
+    for i, m in enumerate(mids):
+        nxt = mids[i + 1] if i + 1 < len(mids) else "lib"
+        lines = [below(nxt)]
+        if i == len(mids) - 1 and rng.random() < 0.3:
+            lines.append("setupOptional(ghost)")
+        twov = rng.random() < 0.3
+        mtags = ["current"]
+        if kind == "--vro" and not twov:
+            mtags.append(tag)           # a --vro that holds no current must find the product through the tag
+        add(m, fam[0], mtags, lines)
+        if twov:
+            add(m, fam[1], [tag], lines)
+            feats.add("inherit/two-versions-on-the-way")
+    add("n1", fam[0], ["current"], [below("lib" if share else "lic")])
+    cmdname = rng.choice(["setupRequired", "setupRequired", "setupOptional"])
+    if kind == "-t":
+        words = rng.choice(["-t %(t)s %(m)s", "%(m)s -t %(t)s", "%(m)s %(v)s -t %(t)s", "--tag %(t)s %(m)s",
+                            "%(m)s -t %(t)s -t %(o)s", "%(m)s -t nosuchtag -t %(t)s"])
+        feats.add("inherit/line-tag")
+    else:
+        words = rng.choice(['--vro "%(t)s current" %(m)s', '%(m)s --vro "%(t)s version current"', "--vro %(t)s %(m)s",
+                            '%(m)s %(v)s --vro "%(t)s version versionExpr current"', '%(m)s --vro "%(o)s %(t)s current"'])
+        feats.add("inherit/line-vro")
+    tagged = "%s(%s)" % (cmdname, words % {"t": tag, "o": other, "m": mids[0], "v": fam[0]})
+    top_lines = [tagged, "setupRequired(n1)"]
+    if rng.random() < 0.5:
+        top_lines.reverse()             # the branch without the tag walked first
+        feats.add("inherit/control-first")
+    if share:
+        feats.add("inherit/control-shares-the-product")
+    add("top", fam[0], ["current"], top_lines)
+    rng.shuffle(prods)
+    return {"stacks": stacks, "extra_tags": list(EXTRA_TAGS), "products": prods, "shape": "inherited-tag",
+            "features": sorted(feats), "oracle_alone": True, "uses": True}
+
+
+def inherit_requests(rng, world):
+    top = [p for p in world["products"] if p["name"] == "top"][0]
+    base = {"name": "top", "version": top["version"], "tags": [], "exact": False, "types": []}
+    reqs = [dict(base, topological=False, check=False, setup=True), dict(base, topological=True, check=False),
+            dict(base, topological=True, check=True), dict(base, topological=rng.random() < 0.5, check=False, exact=True, setup=True),
+            # the product of the tagged line asked for directly: nothing is inherited
+            dict(base, name="m1", topological=False, check=False, setup=True),
+            dict(base, name="n1", topological=True, check=False)]
+    return reqs
+
+
 def gen_requests(rng, world, nmax=8):
     if world.get("no_oracle"):
         top = [p for p in world["products"] if p["name"] == "top"][0]
@@ -598,6 +743,78 @@ def _impl_request(eups, roots, req):
     return out
 
 
+def _setup_in_fork(eups, req, root, names):
+    """what setting the root product up really sets up, the way the setup command does it (Eups(readCache=False,
+    cmdName=setup), selectVRO, Eups.setup), in a process of its own: Eups.setup replaces os.environ and leaves its
+    marks in the singletons"""
+    r, w = os.pipe()
+    pid = os.fork()
+    if pid == 0:
+        code = 0
+        try:
+            os.close(r)
+            res = {}
+            try:
+                sys.modules["eups.db.Database"]._databases.clear()
+                e = eups.Eups(flavor=None, path=None, dbz=None, readCache=False, force=None, quiet=1, verbose=0,
+                              noaction=False, keep=False, ignore_versions=False, setupType=list(req["types"]),
+                              vro=None, exact_version=bool(req["exact"]), cmdName="setup")
+                e.selectVRO(list(req["tags"]) or None, None, root["version"], None)
+                e.includeUserDataDirInPath()
+                ok = e.setup(root["name"], root["version"])
+                res["ok"] = bool(ok[0]) if isinstance(ok, (tuple, list)) else bool(ok)
+                got = []
+                for n in names:
+                    q = e.findSetupProduct(n)
+                    if q:
+                        got.append([q.name, q.version])
+                res["products"] = got
+            except Exception as ex:  # noqa
+                res = {"ok": False, "exc": type(ex).__name__, "msg": str(ex)[:200]}
+            with os.fdopen(w, "wb") as f:
+                f.write(json.dumps(res).encode())
+        except BaseException:  # noqa
+            code = 3
+        finally:
+            os._exit(code)
+    os.close(w)
+    with os.fdopen(r, "rb") as f:
+        data = f.read()
+    os.waitpid(pid, 0)
+    try:
+        return json.loads(data.decode())
+    except ValueError:
+        return {"ok": False, "exc": "ChildDied"}
+
+
+def _impl_uses(eups, world):
+    """eups uses for every declared (name, version), and the topological listing of every declared product on an
+    instance built the same way"""
+    dbmod = sys.modules["eups.db.Database"]
+    dbmod._databases.clear()
+    req = {"types": [], "exact": False, "tags": [], "version": None}
+    e = _cli_eups(eups, req)
+    keys = sorted(set((p["name"], p["version"]) for p in world["products"]))
+    out = {"users": {}, "listing": {}}
+    for n, v in keys:
+        k = "%s %s" % (n, v)
+        try:
+            out["users"][k] = {"ok": sorted(set((u[0], u[1]) for u in e.uses(n, v)))}
+        except Exception as ex:  # noqa
+            out["users"][k] = {"exc": type(ex).__name__, "msg": str(ex)[:200]}
+    dbmod._databases.clear()
+    e = _cli_eups(eups, req)
+    for n, v in keys:
+        k = "%s %s" % (n, v)
+        try:
+            top = e.findProduct(n, v)
+            r = e.getDependentProducts(top, False, topological=True)
+            out["listing"][k] = {"ok": sorted(set((q.name, q.version) for q, o, d in r if q.flavor is not None))}
+        except Exception as ex:  # noqa
+            out["listing"][k] = {"exc": type(ex).__name__, "msg": str(ex)[:200]}
+    return out
+
+
 def _impl_cli(eups, req):
     """the command itself: eups list --dependencies --raw ..."""
     import io
@@ -646,7 +863,11 @@ def impl_world(world):
             r = _impl_request(eups, roots, req)
             if req.get("cli"):
                 r["cli"] = _impl_cli(eups, req)
+            if req.get("setup") and "list" in r:
+                r["setup"] = _setup_in_fork(eups, req, r["root"], sorted(set(p["name"] for p in world["products"])))
             out["requests"].append(r)
+        if world.get("uses"):
+            out["uses"] = _impl_uses(eups, world)
         return out
     finally:
         shutil.rmtree(base, ignore_errors=True)
@@ -800,10 +1021,69 @@ def oracle(world, req, res):
     return bad
 
 
+def oracle_setup(ctx, world, req, res):
+    """the listing of a product is what setting it up sets up: evaluated when setup succeeded and the listing holds
+    one version of every product name (no version conflict: setup keeps one version per name)"""
+    bad = []
+    st = res.get("setup")
+    if not st or "ok" not in res.get("list", {}):
+        return bad
+    if not st.get("ok"):
+        ctx.bump("walk/setup-cross-check/setup-did-not-succeed")
+        return bad
+    root = res["root"]
+    listed = set((x[0], x[1]) for x in res["list"]["ok"] if x[2] and x[0] != root["name"])
+    names = [n for n, _ in listed]
+    if len(names) != len(set(names)):
+        ctx.bump("walk/setup-cross-check/two-versions-of-a-name-listed")
+        return bad
+    done = set((n, v) for n, v in st["products"] if n != root["name"])
+    ctx.count(1, key="walk/setup-cross-check")
+    if done != listed:
+        focus = {"request": {k: req[k] for k in ("name", "version", "tags", "topological", "check", "exact", "types")}}
+        bad.append(("listing-vs-setup", focus, sorted(done), sorted(listed),
+                    "setup %s %s sets up %s but its listing holds %s" % (root["name"], root["version"], sorted(done - listed),
+                                                                        sorted(listed - done))))
+    return bad
+
+
+def oracle_uses(ctx, world, res):
+    """Y is reported as a user of X exactly when X appears in the listing of Y: against the listings the
+    implementation gives, and against the listings the tables mean (o_walk under the VRO of a bare command)"""
+    bad = []
+    u = res.get("uses")
+    if not u:
+        return bad
+    keys = sorted(set((p["name"], p["version"]) for p in world["products"]))
+    mean = {}
+    for n, v in keys:
+        listed, _w, _g = o_walk(world, [], ["exact"], (n, v, True))
+        mean[(n, v)] = set((q[0], q[1]) for q in listed if q[2]) - {(n, v)}
+    for x, xv in keys:
+        k = "%s %s" % (x, xv)
+        r = u["users"].get(k, {})
+        focus = {"uses": [x, xv]}
+        if "ok" not in r:
+            bad.append(("uses-error", focus, "an answer", r, "uses(%s, %s) raised %s" % (x, xv, r.get("exc"))))
+            continue
+        got = set((a, b) for a, b in r["ok"])
+        ctx.count(1, key="walk/uses-query-text-world")
+        inv = set((n, v) for n, v in keys
+                  if (n, v) != (x, xv) and [x, xv] in [list(t) for t in u["listing"].get("%s %s" % (n, v), {}).get("ok", [])])
+        if all("ok" in u["listing"].get("%s %s" % (n, v), {}) for n, v in keys) and got != inv:
+            bad.append(("uses-inverse", focus, sorted(inv), sorted(got),
+                        "uses(%s, %s) = %s but the listings that hold it are those of %s" % (x, xv, sorted(got), sorted(inv))))
+        exp = set(k2 for k2 in keys if (x, xv) in mean[k2])
+        if got != exp:
+            bad.append(("uses-vs-tables", focus, sorted(exp), sorted(got),
+                        "uses(%s, %s): missing users %s, wrong users %s" % (x, xv, sorted(exp - got), sorted(got - exp))))
+    return bad
+
+
 # ------------------------------------------------------------------ comparison
 
 def compare_world(ctx, world, res, outs, metas):
-    case0 = {"world": {k: world[k] for k in ("stacks", "extra_tags", "products")}}
+    case0 = {"world": {k: world[k] for k in ("stacks", "extra_tags", "products", "oracle_alone", "uses") if k in world}}
     if "child_error" in res:
         raise RuntimeError("implementation driver failed on a text world: %r" % (res["child_error"],))
     for req, r, (mi, kinds) in zip(world["requests"], res["requests"], metas):
@@ -822,7 +1102,12 @@ def compare_world(ctx, world, res, outs, metas):
             if f[1] == "Undefined":
                 # outside the model: a construct the table layer refuses, a comparison outside the domain of C10's
                 # comparator, a pinned relational expression
-                ctx.bump("outside/model-undefined%s" % ("/outside-construct" if "outside-construct" in world["features"] else "/other"))
+                ctx.bump("outside/model-undefined%s" % ("/outside-construct" if "outside-construct" in world["features"] else
+                                                        ("/line-vro (oracles only)" if world.get("oracle_alone") else "/other")))
+                if world.get("oracle_alone"):       # --vro on a line: the model refuses it, the property's oracles do not
+                    ctx.count(1, key=key + "/oracles-only")
+                    for kind, focus, exp, obs, what in oracle(world, req, r) + oracle_setup(ctx, world, req, r):
+                        ctx.fail("walk-" + kind, dict(case, focus=focus), expected=exp, observed=obs, what=what)
                 continue
             model = {"err": f[1]}
         else:
@@ -910,8 +1195,10 @@ def compare_world(ctx, world, res, outs, metas):
                 ctx.disagree(case, exp, r["cli"], where="eups list --dependencies --raw against the API listing")
             ctx.count(1, key="walk/command-line")
         if not world.get("no_oracle"):
-            for kind, focus, exp, obs, what in oracle(world, req, r):
+            for kind, focus, exp, obs, what in oracle(world, req, r) + oracle_setup(ctx, world, req, r):
                 ctx.fail("walk-" + kind, dict(case, focus=focus), expected=exp, observed=obs, what=what)
+    for kind, focus, exp, obs, what in oracle_uses(ctx, world, res):
+        ctx.fail("walk-" + kind, dict(case0, request=dict(world["requests"][0], uses=True), focus=focus), expected=exp, observed=obs, what=what)
     for ft in world["features"]:
         ctx.bump("walk-feature/" + ft)
     ctx.bump("walk-shape/" + world["shape"])
@@ -1015,8 +1302,12 @@ def corpus_worlds():
 def run_family(ctx, n):
     worlds = corpus_worlds()
     for k in range(n):
-        w = gen_exotic_world(ctx.rng) if k % 8 == 7 else gen_world(ctx.rng)
-        w["requests"] = gen_requests(ctx.rng, w)
+        if k % 4 == 1:
+            w = gen_inherit_world(ctx.rng)
+            w["requests"] = inherit_requests(ctx.rng, w)
+        else:
+            w = gen_exotic_world(ctx.rng) if k % 8 == 7 else gen_world(ctx.rng)
+            w["requests"] = gen_requests(ctx.rng, w)
         for i, r in enumerate(w["requests"]):
             if i % 7 == 0:
                 r["cli"] = True
@@ -1044,7 +1335,7 @@ def _fails_like(world, req, kind):
 def shrink_world(world, req, kind, budget=60):
     """greedy: drop products (not the root) and table lines while the same kind of oracle failure is still reported for
     the same request"""
-    world = json.loads(json.dumps({k: world[k] for k in ("stacks", "extra_tags", "products")}))
+    world = json.loads(json.dumps({k: world[k] for k in ("stacks", "extra_tags", "products", "oracle_alone") if k in world}))
     changed = True
     while changed and budget > 0:
         changed = False
@@ -1077,9 +1368,16 @@ def shrink_world(world, req, kind, budget=60):
     return world
 
 
+SHRINKABLE = ("walk-closure", "walk-order", "walk-duplicates", "walk-cycle-not-reported", "walk-listing-error")
+
+
 def shrink_failures(ctx, limit=3):
+    """the kinds the listing oracle reports are shrunk; the cross-checks against setup and uses are reported on the
+    worlds of the directed family, which are small as generated"""
     seen = set()
     for f in list(ctx.failures):
+        if f["kind"] not in SHRINKABLE:
+            continue
         if "world" not in f["input"] or ctx._known(f) or f["kind"] in seen or len(seen) >= limit or f["input"].get("shrunk"):
             continue
         seen.add(f["kind"])
